@@ -1007,6 +1007,9 @@ impl World {
                 // batch: <count> operations of one kind started, polled and (optionally) acknowledged
                 self.spin(args);
             }
+            // implementation-only batches (no counterpart in the model; judged by the spec monitors):
+            "spinsub" => self.spinsub(args),
+            "threads" => self.threads(args),
             _ => panic!("unknown event {}", cmd),
         }
         self.end_event();
@@ -1102,6 +1105,205 @@ impl World {
                 }
             }
         }
+    }
+}
+
+// (packet type, packet identifier, subscription identifier) of every identifier-bearing client packet in `w`
+fn id_packets(w: &[u8]) -> Vec<(u8, u16, Option<u32>)> {
+    fn varint(b: &[u8], mut i: usize) -> Option<(u32, usize)> {
+        let (mut v, mut sh) = (0u32, 0);
+        loop {
+            let x = *b.get(i)?;
+            v |= ((x & 0x7f) as u32) << sh;
+            i += 1;
+            if x & 0x80 == 0 {
+                return Some((v, i));
+            }
+            sh += 7;
+            if sh > 21 {
+                return None;
+            }
+        }
+    }
+    let mut out = Vec::new();
+    let mut i = 0;
+    while i < w.len() {
+        let Some((n, j)) = varint(w, i + 1) else { break };
+        let end = j + n as usize;
+        if end > w.len() {
+            break;
+        }
+        let (h, body) = (w[i], &w[j..end]);
+        match h >> 4 {
+            3 if (h >> 1) & 3 > 0 && body.len() >= 2 => {
+                let tl = ((body[0] as usize) << 8) | body[1] as usize;
+                if body.len() >= 4 + tl {
+                    out.push((3, ((body[2 + tl] as u16) << 8) | body[3 + tl] as u16, None));
+                }
+            }
+            8 | 10 if body.len() >= 3 => {
+                let pid = ((body[0] as u16) << 8) | body[1] as u16;
+                let mut sid = None;
+                if let Some((pl, k)) = varint(body, 2) {
+                    let (mut q, pend) = (k, k + pl as usize);
+                    while q < pend && q < body.len() {
+                        if body[q] == 0x0b {
+                            if let Some((v, _)) = varint(body, q + 1) {
+                                sid = Some(v);
+                            }
+                            break;
+                        } else if body[q] == 0x26 && q + 2 < body.len() {
+                            let kl = ((body[q + 1] as usize) << 8) | body[q + 2] as usize;
+                            let vo = q + 3 + kl;
+                            if vo + 1 >= body.len() {
+                                break;
+                            }
+                            let vl = ((body[vo] as usize) << 8) | body[vo + 1] as usize;
+                            q = vo + 2 + vl;
+                        } else {
+                            break;
+                        }
+                    }
+                }
+                out.push((h >> 4, pid, if h >> 4 == 8 { sid } else { None }));
+            }
+            _ => {}
+        }
+        i = end;
+    }
+    out
+}
+
+impl World {
+    // spinsub <n>: n subscribe() calls, each acknowledged and its response dropped; one digest line:
+    // how many SUBSCRIBE packets were written, how many distinct subscription identifiers they carry, how many carry 0
+    // or none.  (C11: every subscribe() gets its own subscription identifier, also after more than 65535 of them.)
+    fn spinsub(&mut self, args: &[&str]) {
+        let n: usize = num(args[0]);
+        let mut seen = std::collections::HashSet::new();
+        let (mut total, mut zero, mut dup, mut incomplete) = (0usize, 0usize, 0usize, 0usize);
+        let mut first_dup: Option<(usize, u32)> = None;
+        for k in 0..n {
+            let i = 900_000_000 + k;
+            let Some(mut hd) = self.handles.get(&0).cloned() else { return };
+            let o = subscribe_opts(&mut self.arena, &["f=61:0000"]);
+            let fut: OpFut = Box::pin(async move { OpOut::Sub(hd.subscribe(o).await) });
+            self.ops.insert(i, OpTask { fut: Some(fut), flag: new_flag(), polled: false, sub: None });
+            let mark = self.out.len();
+            let wbefore = self.wr.0.borrow().out.len();
+            self.poll_op(i, false);
+            self.settle();
+            let written: Vec<u8> = self.wr.0.borrow().out[wbefore..].to_vec();
+            for (t, pid, sid) in id_packets(&written) {
+                if t != 8 {
+                    continue;
+                }
+                total += 1;
+                match sid {
+                    None | Some(0) => zero += 1,
+                    Some(v) => {
+                        if !seen.insert(v) {
+                            dup += 1;
+                            first_dup.get_or_insert((k, v));
+                        }
+                    }
+                }
+                let (hi, lo) = ((pid >> 8) as u8, pid as u8);
+                self.rd.0.borrow_mut().segs.push_back(vec![0x90, 4, hi, lo, 0, 0]);
+                self.wake_reader();
+                self.settle();
+            }
+            self.poll_op(i, false);
+            self.settle();
+            if !self.ops.get(&i).map(|t| t.fut.is_none()).unwrap_or(false) {
+                incomplete += 1;
+            }
+            self.ops.remove(&i);
+            self.out.truncate(mark);
+            self.wmark = self.wr.0.borrow().out.len();
+            if self.arena.strs.len() > 4096 {
+                self.arena.strs.clear();
+                self.arena.bins.clear();
+            }
+        }
+        self.emit(format!(
+            "U calls={} subscribes={} distinct={} zero={} dup={} incomplete={}{}",
+            n,
+            total,
+            seen.len(),
+            zero,
+            dup,
+            incomplete,
+            first_dup.map(|(k, v)| format!(" firstdup=call{}:id{}", k, v)).unwrap_or_default()
+        ));
+    }
+
+    // threads <t> <n>: t OS threads, each with its own clone of the handle, start n identifier-bearing operations each
+    // (QoS 1 publish / subscribe / unsubscribe in turn; polled once, never acknowledged) while this thread drives run().
+    // One digest line: identifier-bearing packets written, duplicates among their packet identifiers, zeros.
+    // (C11: identifiers unique among outstanding operations, also when issued concurrently from different clones.)
+    fn threads(&mut self, args: &[&str]) {
+        let t: usize = num(args[0]);
+        let n: usize = num(args[1]);
+        let Some(hd) = self.handles.get(&0).cloned() else { return };
+        let wbefore = self.wr.0.borrow().out.len();
+        let start = Arc::new(std::sync::Barrier::new(t));
+        let mut joins = Vec::new();
+        for k in 0..t {
+            let h = hd.clone();
+            let start = start.clone();
+            joins.push(std::thread::spawn(move || {
+                let waker = futures::task::noop_waker();
+                let mut cx = std::task::Context::from_waker(&waker);
+                start.wait();
+                for j in 0..n {
+                    let mut hd = h.clone();
+                    match (k + j) % 3 {
+                        0 => {
+                            let o = PublishOpts::new().topic_name("a").qos(QoS::AtLeastOnce);
+                            let mut f = Box::pin(async move { hd.publish(o).await.map(|_| ()) });
+                            let _ = f.as_mut().poll(&mut cx);
+                        }
+                        1 => {
+                            let o = SubscribeOpts::new().subscription("a", SubscriptionOpts::new());
+                            let mut f = Box::pin(async move { hd.subscribe(o).await.map(|_| ()) });
+                            let _ = f.as_mut().poll(&mut cx);
+                        }
+                        _ => {
+                            let o = UnsubscribeOpts::new().topic_filter("a");
+                            let mut f = Box::pin(async move { hd.unsubscribe(o).await.map(|_| ()) });
+                            let _ = f.as_mut().poll(&mut cx);
+                        }
+                    }
+                }
+            }));
+        }
+        drop(hd);
+        let mark = self.out.len();
+        while joins.iter().any(|j| !j.is_finished()) {
+            self.poll_ctx_once();
+        }
+        for j in joins {
+            let _ = j.join();
+        }
+        for _ in 0..3 {
+            self.poll_ctx_once();
+            self.settle();
+        }
+        let written: Vec<u8> = self.wr.0.borrow().out[wbefore..].to_vec();
+        self.wmark = self.wr.0.borrow().out.len();
+        self.out.truncate(mark);
+        let ids = id_packets(&written);
+        let mut seen = std::collections::HashSet::new();
+        let (mut dup, mut zero) = (0usize, 0usize);
+        for (_, pid, _) in &ids {
+            if *pid == 0 {
+                zero += 1;
+            } else if !seen.insert(*pid) {
+                dup += 1;
+            }
+        }
+        self.emit(format!("T threads={} each={} packets={} dup={} zero={}", t, n, ids.len(), dup, zero));
     }
 }
 
